@@ -629,6 +629,35 @@ pub fn cost_families(out: &mut crate::Out, thorough: bool, seed: u64) {
             }
         }
     }
+    // a doubled byte string (32 * 2^n bytes by structural sharing) as each operand of the signature check and of the bounded
+    // hash: every length test must come before the operand is flattened
+    {
+        let (pk, sk) = crate::keys::from_seed(&[9u8; 32]);
+        let msg = vec![1u8, 2, 3];
+        let sig = sk.sign(&msg);
+        for n in if thorough { vec![10u16, 20, 24, 26] } else { vec![10u16, 24] } {
+            let dbl = |v: &mut Vec<OpCode>| { v.push(PushB(vec![7u8; 32])); v.push(Loop(n, 2)); v.push(Dup); v.push(BAppend); };
+            for pos in 0..3 {
+                for lim in [3u16, 65535] {
+                    let mut v = vec![];
+                    // stack order: signature, public key, message (on top)
+                    if pos == 0 { dbl(&mut v) } else { v.push(PushB(sig.clone())) }
+                    if pos == 1 { dbl(&mut v) } else { v.push(PushB(pk.0.to_vec())) }
+                    if pos == 2 { dbl(&mut v) } else { v.push(PushB(msg.clone())) }
+                    v.push(SigEOk(lim));
+                    v.push(PushIC(U256::ONE));
+                    put(out, "cost-doubling-sigeok", v, true);
+                }
+            }
+            for lim in [0u16, 32, 65535] {
+                let mut v = vec![];
+                dbl(&mut v);
+                v.push(Hash(lim));
+                v.push(PushIC(U256::ONE));
+                put(out, "cost-doubling-hash", v, true);
+            }
+        }
+    }
     // lengths beyond what a usize can hold: 2^59 .. 2^66 bytes through structural sharing (never materialised)
     for n in [58u16, 59, 60, 62, 64, 66, 100] {
         for vecs in [false, true] {
